@@ -20,7 +20,7 @@ PRIMS = {
     "np.clip": (True, "always"), "np.multiply": (True, "c>0"), "np.true_divide": (True, "c>0"), "np.divide": (True, "c>0"),
     "np.add": (True, "always"), "np.subtract": (True, "always"), "np.power": (True, "c>0"), "np.log": (True, "always"),
     "np.exp": (True, "always"), "np.arcsinh": (True, "always"), "np.sinh": (True, "always"), "np.sqrt": (True, "always"),
-    "np.log10": (True, "always"),
+    "np.log10": (True, "always"), "np.log1p": (True, "always"), "np.expm1": (True, "always"),
 }
 NAN_SWALLOWING = {"np.fmax", "np.fmin", "np.nan_to_num", "np.where", "np.nanmax", "np.nanmin", "np.putmask", "np.copyto",
                   "np.nanpercentile", "np.nanquantile", "np.place"}
@@ -72,6 +72,10 @@ class Sym:
 
     def apply(self, func: str, v: Rat, p: Optional[Rat] = None) -> Rat:
         one, zero = Rat.const(1), Rat.const(0)
+        if func == "log1p":
+            return self.apply("log", v + one)
+        if func == "expm1":
+            return self.apply("exp", v) - one
         if func == "log":
             if v.equals(one):
                 return zero
@@ -130,7 +134,7 @@ def _const_expr(sym: Sym, e: ast.AST, fields: dict[str, Rat]) -> Rat:
         return {ast.Add: l.__add__, ast.Sub: l.__sub__, ast.Mult: l.__mul__, ast.Div: l.__truediv__}[type(e.op)](r)
     if isinstance(e, ast.Call):
         cn = call_name(e) or ""
-        if cn in ("np.log", "np.exp", "np.arcsinh", "np.sinh") and len(e.args) == 1:
+        if cn in ("np.log", "np.exp", "np.arcsinh", "np.sinh", "np.log1p", "np.expm1") and len(e.args) == 1:
             return sym.apply(cn.split(".")[1], _const_expr(sym, e.args[0], fields))
     raise AnalysisError(f"parameter expression `{unparse(e)}` not understood")
 
@@ -245,7 +249,7 @@ def _positive(e: ast.AST, pos_fields: set[str]) -> Optional[bool]:
     if isinstance(e, ast.Call) and len(e.args) == 1:
         cn = call_name(e)
         a = e.args[0]
-        if cn in ("np.arcsinh", "np.sinh", "np.sqrt"):
+        if cn in ("np.arcsinh", "np.sinh", "np.sqrt", "np.log1p", "np.expm1"):  # odd / zero-at-zero increasing functions: positive on positives
             return True if _positive(a, pos_fields) else None
         if cn == "np.log":  # log(1 + positive) > 0
             if isinstance(a, ast.BinOp) and isinstance(a.op, ast.Add):
@@ -450,6 +454,26 @@ def run(check, repo: Repo) -> None:
     check.decide(ok, "C20-R3", "CustomNormalization._set_limits freezes the limits in a ManualInterval (vmin→0, vmax→1 for later calls)", "", mod.line(sl),
                  fail_detail="_set_limits does not freeze (vmin, vmax) from get_limits into ManualInterval")
 
+    # ---- R6 configuration wiring: every CustomNormalization built from a resolved configuration receives field K as keyword K ----------------
+    VIS = "quantem.core.visualization.visualization"
+    vmod = repo.module(VIS)
+    cn_params = [a.arg for f in cn_cls.body if isinstance(f, ast.FunctionDef) and f.name == "__init__" for a in f.args.args[1:] + f.args.kwonlyargs]
+    if not cn_params:
+        raise AnalysisError("CustomNormalization.__init__ parameters not found")
+    sites = [c for c in ast.walk(vmod.tree) if isinstance(c, ast.Call) and (call_name(c) or "").split(".")[-1] == "CustomNormalization" and c.keywords]
+    check.floor("CustomNormalization construction sites with keywords", len(sites), 2)
+    for c in sites:
+        srcs = {unparse(k.value.value) for k in c.keywords if isinstance(k.value, ast.Attribute)}
+        if len(srcs) != 1:
+            continue  # not built field-by-field from one configuration object
+        cfg = next(iter(srcs))
+        wrong = [f"{k.arg}={unparse(k.value)}" for k in c.keywords if k.arg is not None and isinstance(k.value, ast.Attribute) and k.value.attr != k.arg]
+        unknown = [k.arg for k in c.keywords if k.arg is not None and k.arg not in cn_params]
+        encl = next((f.name for f in ast.walk(vmod.tree) if isinstance(f, ast.FunctionDef) and f.lineno <= c.lineno <= (f.end_lineno or f.lineno)), "?")
+        check.decide(not wrong and not unknown, "C20-R6", f"{encl}: CustomNormalization(…) receives every field of `{cfg}` under its own keyword", f"{len(c.keywords)} keywords",
+                     vmod.line(c), fail_detail=f"{wrong or unknown}: the normalisation is built with another field's value — e.g. a manual interval whose upper limit is the lower limit "
+                                               f"no longer sends the requested limits to 0 and 1")
+
 
 def _run_pipeline(sym: Sym, p: Pipeline, x: Rat, fields: dict[str, Rat], local_names: bool = False) -> Rat:
     v = x
@@ -457,7 +481,7 @@ def _run_pipeline(sym: Sym, p: Pipeline, x: Rat, fields: dict[str, Rat], local_n
         f = prim.split(".")[1]
         if f == "clip":
             continue  # identity on [0, 1]
-        if f in ("log", "exp", "arcsinh", "sinh"):
+        if f in ("log", "exp", "arcsinh", "sinh", "log1p", "expm1"):
             v = sym.apply(f, v)
             continue
         if operand is None:
